@@ -618,6 +618,130 @@ def fact_pct_expr(mod, fname):
 
 TOTAL = "_total_count"
 
+# ---------------------------------------------------------------- the validity filters, translated
+NODATA = "nodata_values"
+
+
+def mexpr_of(node, v):
+    """numpy boolean mask over the array whose text is `v` (and the scalar `nodata_values`) -> Lean `MExpr` term;
+    None = not of that form"""
+    if isinstance(node, ast.Call) and not node.keywords:
+        fn = u(node.func)
+        if len(node.args) == 1 and u(node.args[0]) == v and fn in ("np.isfinite", "np.isnan", "np.isinf"):
+            return "." + fn[3:]
+        if fn == "np.logical_not" and len(node.args) == 1:
+            a = mexpr_of(node.args[0], v)
+            return None if a is None else f"(.not {a})"
+        if fn in ("np.logical_and", "np.logical_or") and len(node.args) == 2:
+            a, b = mexpr_of(node.args[0], v), mexpr_of(node.args[1], v)
+            return None if a is None or b is None else f"(.{'and' if fn.endswith('and') else 'or'} {a} {b})"
+        return None
+    if isinstance(node, ast.Compare) and len(node.ops) == 1:
+        l, r, op = u(node.left), u(node.comparators[0]), node.ops[0]
+        if {l, r} == {v, NODATA} and isinstance(op, (ast.NotEq, ast.Eq)):
+            return ".neNodata" if isinstance(op, ast.NotEq) else ".eqNodata"
+        if l == NODATA and r == "None" and isinstance(op, (ast.Is, ast.IsNot)):
+            return ".nodataNone" if isinstance(op, ast.Is) else "(.not .nodataNone)"
+        return None
+    if isinstance(node, ast.BinOp) and isinstance(node.op, (ast.BitAnd, ast.BitOr)):
+        a, b = mexpr_of(node.left, v), mexpr_of(node.right, v)
+        return None if a is None or b is None else f"(.{'and' if isinstance(node.op, ast.BitAnd) else 'or'} {a} {b})"
+    if isinstance(node, ast.BoolOp):          # python-level and / or of scalar tests
+        parts = [mexpr_of(x, v) for x in node.values]
+        if any(x is None for x in parts):
+            return None
+        out = parts[0]
+        for x in parts[1:]:
+            out = f"(.{'and' if isinstance(node.op, ast.And) else 'or'} {out} {x})"
+        return out
+    if isinstance(node, ast.UnaryOp) and isinstance(node.op, (ast.Invert, ast.Not)):
+        a = mexpr_of(node.operand, v)
+        return None if a is None else f"(.not {a})"
+    return None
+
+
+def block_of(func, node):
+    """(innermost statement list, index) of the statement that contains `node`"""
+    def search(blk):
+        for i, st in enumerate(blk):
+            if st is node or any(m is node for m in ast.walk(st)):
+                for field in ("body", "orelse", "finalbody", "handlers"):
+                    sub = getattr(st, field, None)
+                    if isinstance(sub, list) and sub and isinstance(sub[0], ast.stmt):
+                        r = search(sub)
+                        if r[0] is not None:
+                            return r
+                return blk, i
+        return None, None
+    return search(func.body)
+
+
+def mask_by_name(func, use, name, v):
+    """the mask held by the local `name` at the statement `use`: built by `name = M`, then any of `name &= M`,
+    `name |= M`, `name = name & M`, `if <scalar test>: name &= M` in the same block; anything else -> None"""
+    blk, idx = block_of(func, use)
+    if blk is None:
+        return None
+    cur = None
+    for st in blk[:idx]:
+        stores = [m for m in ast.walk(st) if isinstance(m, ast.Name) and m.id == name and isinstance(m.ctx, ast.Store)]
+        if not stores:
+            continue
+        if isinstance(st, ast.Assign) and len(st.targets) == 1 and u(st.targets[0]) == name:
+            val = st.value
+            if isinstance(val, ast.BinOp) and isinstance(val.op, (ast.BitAnd, ast.BitOr)) and u(val.left) == name and cur is not None:
+                b = mexpr_of(val.right, v)
+                cur = None if b is None else f"(.{'and' if isinstance(val.op, ast.BitAnd) else 'or'} {cur} {b})"
+            else:
+                cur = mexpr_of(val, v)
+            if cur is None:
+                return None
+        elif isinstance(st, ast.AugAssign) and u(st.target) == name and isinstance(st.op, (ast.BitAnd, ast.BitOr)) and cur is not None:
+            b = mexpr_of(st.value, v)
+            if b is None:
+                return None
+            cur = f"(.{'and' if isinstance(st.op, ast.BitAnd) else 'or'} {cur} {b})"
+        elif isinstance(st, ast.If) and not st.orelse and len(st.body) == 1 and isinstance(st.body[0], ast.AugAssign) \
+                and u(st.body[0].target) == name and isinstance(st.body[0].op, ast.BitAnd) and cur is not None:
+            c, b = mexpr_of(st.test, v), mexpr_of(st.body[0].value, v)
+            if c is None or b is None:
+                return None
+            cur = f"(.and {cur} (.or (.not {c}) {b}))"      # the conjunct only applies when the test holds
+        else:
+            return None
+    return cur
+
+
+def fact_mask(mod, fname):
+    """the one boolean-mask selection `A[M]` of `fname` whose mask is built from isfinite / isnan / isinf / comparisons
+    with nodata_values: (Lean MExpr term, python text)"""
+    f = find_func(mod, fname)
+    if f is None:
+        return "MExpr.unknown", "no " + fname
+    found = []
+    for n in ast.walk(f):
+        if isinstance(n, ast.Subscript) and isinstance(n.ctx, ast.Load) and not isinstance(n.slice, (ast.Slice, ast.Tuple, ast.Constant)):
+            v = u(n.value)
+            m = mexpr_of(n.slice, v)
+            if m is None and isinstance(n.slice, ast.Name):
+                if n.slice.id in single_assignments_raw(f) and not any(
+                        isinstance(x, ast.AugAssign) and u(x.target) == n.slice.id for x in ast.walk(f)):
+                    m = mexpr_of(single_assignments_raw(f)[n.slice.id], v)
+                else:
+                    m = mask_by_name(f, n, n.slice.id, v)
+                if m is None and any(isinstance(x, (ast.Assign, ast.AugAssign)) and any(
+                        isinstance(y, ast.Call) and u(y.func).startswith("np.is") for y in ast.walk(x)) and
+                        any(isinstance(y, ast.Name) and y.id == n.slice.id and isinstance(y.ctx, ast.Store) for y in ast.walk(x))
+                        for x in ast.walk(f)):
+                    m = "?"           # a mask variable built in a way that is not understood
+            if m is not None:
+                found.append((m, ast.unparse(n)))
+    if len(found) != 1 or found[0][0] == "?":
+        return "MExpr.unknown", "; ".join(x[1] for x in found) or "no mask selection"
+    e = found[0][0]
+    return ("MExpr" + e[1:-1] if e.startswith("(") else "MExpr" + e), found[0][1]
+
+
 
 def generate(repo):
     mod = ast.parse(open(os.path.join(repo, REL)).read())
@@ -637,10 +761,14 @@ def generate(repo):
     bits = fact_strides_bits(mod)
     pct_np, pct_np_src = fact_pct_expr(mod, "_crosstab_numpy")
     pct_dk, pct_dk_src = fact_pct_expr(mod, "_crosstab_df_dask")
+    masks = {nm: fact_mask(mod, fn) for nm, fn in (("maskCalcStats", "_calc_stats"), ("maskFindCats", "_find_cats"),
+                                                   ("maskZone2d", "_single_zone_crosstab_2d"),
+                                                   ("maskZone3d", "_single_zone_crosstab_3d"))}
     rep = dict(stripIndices=strip, strip_note=strip_note, comb=combs, blockStatsOk=block_ok, daskArgs=args,
                catStartAlways=cat_always, rowsSortedNumpy=rows_np, rowsSortedDask=rows_dk,
                statsAligns=st_al, crosstab2dAligns=a2, crosstab3dAligns=a3,
-               stridesBits=bits, pctNumpy=pct_np, pctNumpy_src=pct_np_src, pctDask=pct_dk, pctDask_src=pct_dk_src)
+               stridesBits=bits, pctNumpy=pct_np, pctNumpy_src=pct_np_src, pctDask=pct_dk, pctDask_src=pct_dk_src,
+               masks={k: v[0] for k, v in masks.items()})
     lines = ["import XrsVerif.Model.Crosstab",
              "/-! GENERATED by harness/facts_zonal.py from the current /repo source (xrspatial/zonal.py) -- do not edit. -/",
              "namespace XrsVerif.Gen.Zonal", "open XrsVerif.Zonal", "",
@@ -671,5 +799,8 @@ def generate(repo):
              f"def pctNumpy : PExpr := {pct_np}",
              "/-- the `percentage` expression of `_crosstab_df_dask`: " + pct_dk_src.replace("-/", "- /") + " -/",
              f"def pctDask : PExpr := {pct_dk}", "",
-             "end XrsVerif.Gen.Zonal", ""]
+             "-- the validity filters (`A[mask]`) of `_calc_stats`, `_find_cats` (2-D), `_single_zone_crosstab_2d/_3d`"] + [
+             x for nm, (term, src) in masks.items() for x in
+             ("/-- " + " ".join(src.split()).replace("-/", "- /") + " -/", f"def {nm} : MExpr := {term}")] + [
+             "", "end XrsVerif.Gen.Zonal", ""]
     yield "Zonal.lean", "\n".join(lines), rep
